@@ -1,4 +1,5 @@
 import Gsp.Model.Safe
+import Gsp.Lemmas.CtxSafe
 /-! C15 — safe mode never silently drops a field. -/
 namespace Gsp.Props.C15
 open Gsp Gsp.Safe
@@ -39,5 +40,38 @@ theorem unsafe_equals_stripped (canon : String → Option String) (h : Hasher) (
 
 example : ∃ e, merklize (fun _ => none) (Hashers.small 251) true ⟨[("@default", [])], 2⟩ = .error e :=
   safe_rejects_undefined _ _ _ (by decide)
+
+/-- **Safe mode, stated on the document and its contexts.** When merklization in safe mode succeeds, every dotted
+    path that addresses something the document contains - any depth, positions in arrays included - has a stored key
+    under the specification of expansion (`Ctx.storedKey`): no property was left out on the way, at any level. -/
+theorem safe_success_stores_every_path (canon : String → Option String) (h : Hasher) (s : Ctx.Schema) (fuel : Nat)
+    (doc : Ctx.Node) (quads : Rdf.Dataset) (mz : Mz.Merklizer)
+    (hm : merklizeDoc canon h true s fuel doc quads = .ok mz) (π : List String)
+    (hp : Ctx.present fuel (some doc) π = true) :
+    ∃ q, Ctx.storedKey s fuel (topOf s) (some doc) π = .ok q := by
+  have h0 := (safe_success_covers canon h _ mz hm).1
+  exact Ctx.defined_paths_stored s fuel (topOf s) (some doc) π h0 hp
+
+/-- a property no context defines - at the top, or inside a nested node - is counted, so safe mode rejects the document -/
+theorem undefined_property_rejected (canon : String → Option String) (h : Hasher) (s : Ctx.Schema) (fuel : Nat)
+    (doc : Ctx.Node) (quads : Rdf.Dataset) (hu : undefinedOf s fuel doc > 0) :
+    ∃ e, merklizeDoc canon h true s fuel doc quads = .error e :=
+  safe_rejects_undefined canon h _ hu
+
+/-- non-vacuity: a nested document with a property-scoped context and an array; fully defined, and the same document
+    with one more property inside the nested node, which no context defines -/
+def okSchema : Ctx.Schema :=
+  { top := 0
+    ctxs := [(0, [⟨"addr", "urn:v#addr", "", some 1⟩, ⟨"tags", "urn:v#tags", "", none⟩]),
+             (1, [⟨"city", "urn:a#city", "", none⟩])] }
+def okDoc : Ctx.Node := .mk [] [("addr", [some (.mk [] [("city", [none])])]), ("tags", [none, none])]
+def badDoc : Ctx.Node := .mk [] [("addr", [some (.mk [] [("city", [none]), ("undefinedProp7", [none])])]), ("tags", [none, none])]
+
+example : undefinedOf okSchema 10 okDoc = 0 ∧ Ctx.present 10 (some okDoc) ["addr", "city"] = true ∧
+    Ctx.present 10 (some okDoc) ["tags"] = true := by decide
+example : undefinedOf okSchema 10 badDoc = 1 := by decide
+/-- `tags` is defined at the top only: inside `addr` (whose scoped context does not define it... but the outer
+    definition stays in force) it is still a defined term; a term of the *inner* context used at the top is not -/
+example : undefinedOf okSchema 10 (.mk [] [("city", [none])]) = 1 := by decide
 
 end Gsp.Props.C15
